@@ -846,6 +846,11 @@ func (g *Gen) ParallelProgram(pid int) *ps.Program {
 		if emptyOnly {
 			return sizes[g.R.Intn(2)]
 		}
+		if g.chance(5) {
+			// beyond any plausible window or batch size of generated code (a failure or a
+			// cancellation then leaves thousands of element jobs enqueued but never run)
+			return 3000
+		}
 		return sizes[g.R.Intn(len(sizes))]
 	}
 	for s := 0; s < ns; s++ {
